@@ -2405,6 +2405,10 @@ def _glom(target, spec, scope):
                 cur_scope.maps[0][CUR_ERROR] = e
                 cur_scope = cur_scope[UP]
         raise
+    finally:
+        # a lazy iterator created by an earlier step and consumed during this
+        # one evaluates its items as further children of the same parent
+        pmap[LAST_CHILD_SCOPE] = scope
 
 
 def AUTO(target, spec, scope):
